@@ -1900,3 +1900,70 @@ def pickle_lookup_obligations(rep, tier, unit='ground:pickle-by-reference'):
             rep.add(unit, f'{mod.__name__}.{k}: found again by (module, qualified name) = ({cls.__module__}, {cls.__qualname__})', 'ground', found is cls,
                     detail={'module': cls.__module__, 'qualname': cls.__qualname__, 'found': repr(found)[:80]})
     rep.add(unit, 'classes were examined (vacuity)', 'ground', len(classes) >= 6)
+
+
+def frontend_definition_obligations(rep, tier, unit='ground:front-end-definitions'):
+    """what the real front end makes of definitions: rule / template / class heads and every kind of class member (plain field, `let`
+    field, `pass`, `requires`), with every separator spelling.  `requires c` must be an unnamed, omitted member that consumes nothing and
+    succeeds exactly when c is truthy in the scope of the body - decided by EVALUATING the predicate the front end built."""
+    def get(desc):
+        return front.rules_of(desc)
+    try:
+        rules = get('class K(p, q) {\n a: "x"\n let b: "y"\n pass "z"\n requires `a == "x" and p`\n c => "w"\n let d = "v"\n}\n'
+                    'T(m, n) = [m, n]\nPlain = "p"\nignore Sp = " "\nignore /#.*/\nU(k) => k')
+    except Exception as e:
+        rep.add(unit, 'the description is accepted', 'ground', False, detail={'raised': repr(e)[:300]})
+        return
+    by_name = {getattr(r, 'name', None): r for r in rules}
+    K = by_name.get('K')
+    okK = isinstance(K, X.Class) and list(K.params or []) == ['p', 'q'] and len(K.members) == 6
+    rep.add(unit, 'class head: name and parameters in order', 'ground', okK, detail={'got': repr(getattr(K, 'params', None))})
+    if okK:
+        m = K.members
+        want = [('a', False), ('b', True), (None, True), (None, True), ('c', False), ('d', True)]
+        got = [(x.name, bool(x.is_omitted)) for x in m]
+        rep.add(unit, 'class members: names and omitted flags of plain / let / pass / requires members, every separator spelling', 'ground', got == want,
+                detail={'got': got, 'want': want})
+        rep.add(unit, 'class members: a plain, let or pass member holds its own expression', 'ground',
+                all(isinstance(m[i].expr, X.Str) and m[i].expr.value == v for i, v in ((0, 'x'), (1, 'y'), (2, 'z'), (4, 'w'), (5, 'v'))),
+                detail={'got': [str(x.expr) for x in m]})
+        req = m[3].expr
+        okreq, d = False, {'got': str(req)[:120]}
+        if isinstance(req, X.Where):
+            parts = [v for v in vars(req).values() if isinstance(v, frag.Expression)]
+            pys = [p_ for p_ in parts if isinstance(p_, X.PythonExpression)]
+            if len(parts) == 2 and len(pys) == 2:
+                subj, pred = (pys[0], pys[1])
+                try:
+                    consumes_nothing = eval(subj.source_code, {}) is None
+                    outcomes = []
+                    for a_, p_ in (('x', 1), ('x', 0), ('q', 1)):
+                        f = eval(pred.source_code, {'a': a_, 'p': p_})
+                        outcomes.append(bool(f(None)))
+                    okreq = consumes_nothing and outcomes == [True, False, False]
+                    d = {'subject': subj.source_code, 'predicate': pred.source_code, 'outcomes': outcomes}
+                except Exception as e:
+                    d = {'raised': repr(e)[:200], 'subject': subj.source_code, 'predicate': pred.source_code}
+        rep.add(unit, '`requires c` is a where-test on a value that consumes nothing, true exactly when c is truthy in the scope of the body', 'ground', okreq, detail=d)
+    T, U, P = by_name.get('T'), by_name.get('U'), by_name.get('Plain')
+    rep.add(unit, 'template heads: parameters in order, `=` and `=>`', 'ground',
+            isinstance(T, X.Rule) and list(T.params or []) == ['m', 'n'] and isinstance(U, X.Rule) and list(U.params or []) == ['k']
+            and isinstance(P, X.Rule) and not P.params and not P.is_ignored and not T.is_ignored)
+    ign = [r for r in rules if getattr(r, 'is_ignored', False)]
+    rep.add(unit, 'ignore statements: the named and the anonymous pattern are ignored rules with their own expressions', 'ground',
+            len(ign) == 2 and ign[0].name == 'Sp' and isinstance(ign[0].expr, X.Str) and ign[0].expr.value == ' ' and isinstance(ign[1].expr, X.Regex))
+    # let expressions and keyword arguments
+    try:
+        e = front.expr_of('let x = "a" in [x, T(k="b", j=x)]')
+        call = [n for n in _walk_exprs(e) if isinstance(n, X.Call)]
+        kws = [(a.name, str(a.expr)) for a in call[0].args] if call else None
+        ok = isinstance(e, X.Let) and e.name == 'x' and isinstance(e.expr, X.Str) and e.expr.value == 'a' and kws == [('k', "'b'"), ('j', 'x')]
+    except Exception as ex_:
+        ok, kws = False, repr(ex_)
+    rep.add(unit, 'let binds its name to its first expression; keyword arguments keep name and expression in order', 'ground', ok, detail={'got': repr(kws)[:160]})
+
+
+def _walk_exprs(e):
+    out = []
+    X.visit(e, out.append)
+    return out
